@@ -109,6 +109,7 @@ class Capture(object):
         con = sqlite3.connect(self.path)
         try:
             rows, links = [], []
+            self.on_delete_refs = []
             w = self.w
             for i, E in enumerate(w.ents):
                 cols = [(j, at.columns[0]) for j, at in enumerate(w.attrs[i]) if self.schema['entities'][i]['attrs'][j]['kind'] == 'ref' and at.columns]
@@ -119,6 +120,9 @@ class Capture(object):
                     for (j, c), v in zip(cols, row[1:]):
                         te = self.schema['entities'][i]['attrs'][j]['target']
                         fks.append([j, self.handle_of(te, v) if v is not None else None])
+                        at = w.attrs[i][j]
+                        if v is not None and (at.reverse.cascade_delete or not at.is_required):
+                            self.on_delete_refs.append([h, self.handle_of(te, v)])      # the DDL has ON DELETE CASCADE / SET NULL for this reference
                     rows.append([h, fks])
             return rows
         finally:
@@ -189,13 +193,14 @@ def run(sname, ops):
             if any(x[0] == 'Z' or x[0] is None for x in pend['queue']):
                 aborted = 'an object without a handle is pending'; break
             rows = cap.db_rows()
+            on_delete_refs = list(cap.on_delete_refs)
             n = len(cap.trace)
             r = w.run_op(op)
             results.append([r[0], r[1]])
             stmts = cap.parse(cap.trace[n:])
             outcome = 0 if r[0] == 'ok' else (1 if 'UnresolvableCyclicDependency' in str(r[1]) else 2)
             rows_after = cap.db_rows() if r[0] != 'ok' else None
-            flushes.append({'pending': pend, 'rows': rows, 'outcome': outcome, 'error': r[1], 'stmts': stmts,
+            flushes.append({'pending': pend, 'rows': rows, 'on_delete_refs': on_delete_refs, 'outcome': outcome, 'error': r[1], 'stmts': stmts,
                             'unchanged_after_error': (rows_after == rows) if rows_after is not None else None,
                             'hashed': w.hash_next[0], 'dead_origin': dead_origin})
             if r[0] != 'ok':
